@@ -384,6 +384,10 @@ func runC11(c *Ctx, idx int) {
 			c.Violate(kind, detail(), "%s", msg)
 			return
 		}
+		if d := diffGenomes(s, snapGenome(fresh)); d != "" {
+			c.Violate("genome-modified", detail(), "expressing the genome (and querying the network) modified the genome: %s", d)
+			return
+		}
 		// express the same genome object again after it was changed in place (same and another network id): the new
 		// network describes the genome as it is now, not as it was when it was expressed first
 		if len(s.Modules) == 0 {
